@@ -3,7 +3,7 @@ CONSTANTS
   Names = {"a", "b"}
   Vals = {"1"}
   AddParents = {"", "a"}
-  TreeKeys = {"a.b", "b"}
+  TreeKeys = {"a.b"}
   SetKeys = {"a", "a.b"}
   Keys = {"a", "b", "a.a", "a.b", "b.a", "a.b.a"}
   Filters = {"*", "a", "a.*", "*.b", "a*.b*"}
